@@ -238,6 +238,7 @@ impl LuaMemberIndex {
 }
 //@@ LuaTypeIndex
 //@@include c10_remove2/type_post.rs
+//@@include c10_remove2/type_sweep_spec.rs
 impl LuaTypeIndex {
     //@@ LuaTypeIndex::remove_type_decl_name
     //@@ LuaTypeIndex::remove
@@ -289,7 +290,9 @@ pub open spec fn removed_member(o: &LuaMemberIndex, n: &LuaMemberIndex, f: FileI
 pub open spec fn removed_type(o: &LuaTypeIndex, n: &LuaTypeIndex, f: FileId) -> bool {
     &&& dropped(o.file_namespace@, n.file_namespace@, f) &&& dropped(o.file_using_namespace@, n.file_using_namespace@, f)
     &&& dropped(o.file_types@, n.file_types@, f) &&& dropped(o.in_filed_type_owner@, n.in_filed_type_owner@, f)
-    &&& ty_inv(o.full_name_type_map@, n.full_name_type_map@, o.supers@, n.supers@, o.generic_params@, n.generic_params@, ty_listed(o, f), ty_listed(o, f).len() as int, f)
+    &&& decl_inv(o.full_name_type_map@, n.full_name_type_map@, o.generic_params@, n.generic_params@, ty_listed(o, f), ty_listed(o, f).len() as int, f)
+    &&& sup_after(o.supers@, n.supers@, ty_listed(o, f), ty_listed(o, f).len() as int, f)
+    &&& sup_swept(o.supers@, n.supers@, f) && sup_clean(n.supers@, f)
     &&& forall|w: LuaTypeOwner| #[trigger] n.types@.contains_key(w) <==> o.types@.contains_key(w) && !ty_owners(o, f).contains(w)
     &&& forall|w: LuaTypeOwner| #[trigger] n.types@.contains_key(w) ==> n.types@[w] == o.types@[w]
     &&& names_inv(o.full_name_type_map@, ty_listed(o, f), ty_listed(o, f).len() as int, f, o.global_name_type_map@, n.global_name_type_map@,
